@@ -7,7 +7,7 @@ open Doc
 /-- the roots an operation may write. -/
 def touched : Op → List Nat
   | .assign t _ | .touch t | .setType t _ | .setPtr t _ | .append t _ | .addPtr t _ | .insert t _ _
-  | .remove t _ | .removeIdx t _ | .reset t | .compress t => [t.root]
+  | .remove t _ | .removeIdx t _ | .reset t | .compress t | .reserve t _ _ | .clear t => [t.root]
   | .copy t _ | .assignObj t _ | .assignArr t _ | .appendCopy t _ | .appendObj t _ | .appendArr t _
   | .mergeCopy t _ => [t.root]
   | .move t s | .appendMove t s | .insertMove t _ s | .mergeMove t s => [t.root, s.root]
@@ -40,6 +40,10 @@ theorem step_frame (fmtReal : Nat → List Nat) (op : Op) (env : Env) (q : Nat) 
   | removeIdx t i => simp [touched] at h; simp [step]; exact envGet_onTarget_other _ _ _ _ h
   | reset t => simp [touched] at h; simp [step]; exact envGet_onTarget_other _ _ _ _ h
   | compress t => simp [touched] at h; simp [step]; exact envGet_onTarget_other _ _ _ _ h
+  | clear t => simp [touched] at h; simp [step]; exact envGet_onTarget_other _ _ _ _ h
+  | reserve t k n =>
+    simp [touched] at h; simp only [step]
+    split <;> exact envGet_onTarget_other _ _ _ _ h
   | copy t s => simp [touched] at h; simp only [step]; split <;> first | rfl | exact envGet_onTarget_other _ _ _ _ h
   | assignObj t s => simp [touched] at h; simp only [step]; split <;> first | rfl | exact envGet_onTarget_other _ _ _ _ h
   | assignArr t s => simp [touched] at h; simp only [step]; split <;> first | rfl | exact envGet_onTarget_other _ _ _ _ h
